@@ -41,7 +41,7 @@ def run_demo(meta):
 def main():
     results = []
     for d in sys.argv[1:]:
-        d = d.rstrip('/')
+        d = os.path.abspath(d.rstrip('/'))
         sid = os.path.basename(d)
         meta = json.load(open(os.path.join(d, 'meta.json')))
         pid = meta.get('property', sid.split('-')[0])
@@ -49,7 +49,7 @@ def main():
         ensure_wt()
         rc, out = sh('git apply --whitespace=nowarn %s' % os.path.join(d, 'patch.diff'), cwd=WT)
         if rc != 0:
-            results.append((sid, 'patch does not apply: ' + out[-200:])); continue
+            results.append((sid, 'patch does not apply: ' + out[-200:])); print(results[-1], flush=True); continue
         n, bad = suite_passes()
         shutil.copy(os.path.join(d, 'demo.rs'), os.path.join(WT, 'spindalis', 'tests', 'demo_seed.rs'))
         demo_ok_mut, tail_mut = run_demo(meta)
